@@ -18,6 +18,7 @@ var cmds = map[string]func([]string) int{
 	"b2f-c04":       b2f.MainC04,
 	"b2f-c05":       b2f.MainC05,
 	"b2f-c16":       b2f.MainC16,
+	"b2f-c17":       b2f.MainC17,
 	"b2f-c03":       b2f.MainC03,
 	"b2f-c03-child": b2f.MainC03Child,
 	"posrep":        posrep.Main,
